@@ -529,8 +529,10 @@ impl AsEntry {
         let entry_iter = path_segment
             .as_entries
             .iter()
-            // Take all entries before the current one in the path segment.
-            .take_while(|e| e.entry != *self)
+            // Take all entries before the current one in the path segment. The current entry is
+            // identified by its position (address), not by its value: a copy of an earlier entry
+            // appended to the segment must be checked against everything that precedes the copy.
+            .take_while(|e| !std::ptr::eq(&e.entry, self))
             .flat_map(|entry| {
                 [
                     entry.signed.header_and_body.as_slice(),
